@@ -171,7 +171,9 @@ class _RedisConsumer(ConsumerT):
                 return None
 
             # check if any of the new message names is meeting `startswith_topics` condition
-            for name in names:
+            # (a list window is read from the tail of the queue, where the oldest messages and
+            # the ones returned "in front" are: look at it from its tail end first)
+            for name in names if delayed else reversed(names):
                 str_name = name.decode()
                 if not startswith_topics or str_name.startswith(startswith_topics):
                     return str_name
